@@ -17,6 +17,8 @@ import (
 	"strconv"
 	"strings"
 	"sync"
+
+	"github.com/rs/zerolog"
 )
 
 type component struct {
@@ -47,6 +49,8 @@ func safeRun(c *component, cs string) (res string) {
 }
 
 func main() {
+	// mosproxy's console logger writes to stdout, which carries the line protocol
+	zerolog.SetGlobalLevel(zerolog.Disabled)
 	if len(os.Args) < 2 {
 		fmt.Fprintln(os.Stderr, "usage: mvharness gen|replay|list ...")
 		os.Exit(2)
